@@ -62,6 +62,12 @@ def gen_case(rng, tier, **force):
         wscale = 0.0
     elif kind == "autonomous":        # no explicit time dependence
         c[1] = c[2] = c[4] = 0j
+    elif kind == "stationary":        # f = 0: the field keeps its value, derivative exactly 0
+        c = [0j] * 5
+        wscale = 0.0
+    elif kind == "stationary-zero":   # f = c3 a with a0 = 0: field and derivative exactly 0
+        c[0] = c[1] = c[2] = c[4] = 0j
+        wscale = 0.0
     ws = [np.array([[_cplx(rng, wscale) for _ in range(d)] for _ in range(d)]) for d in dims]
     case = {
         "dims": list(dims), "n": n, "kind": kind,
@@ -88,6 +94,8 @@ def gen_case(rng, tier, **force):
     case["lw"] = rng.uniform(0.5, 4.0)
     case["anl"] = [_herm(rng, d, 0.6) for d in dims]
     case["q"] = force.get("q", rng.choice([0.0, 0.0, 0.9]))
+    if kind == "stationary-zero":
+        case["a0"] = 0j
     if "hw" in force:
         case["hw"] = force["hw"]
     elif rng.random() < 0.25:
@@ -492,7 +500,7 @@ def corpus_cases():
 
 def correspondence(res, tier, rng):
     cases = [("corpus:" + f, c) for f, c in corpus_cases()]
-    ngen = 14 if tier == "quick" else 90
+    ngen = 16 if tier == "quick" else 90
     # fixed coverage first, then random
     forced = [dict(dims=[2], n=1, kind="linear-t", start=1.0, dt=0.1, subdiv=None, record_all=True),
               dict(dims=[2, 3, 2], n=3, kind="full", start=-0.7, subdiv=None, record_all=False),
@@ -506,7 +514,12 @@ def correspondence(res, tier, rng):
               dict(dims=[2, 3], n=3, kind="full", start=0.5, dt=0.1, field_in_h=False, subdiv=None,
                    nl=2, record_all=True),
               dict(dims=[2], n=3, kind="full", start=0.5, dt=0.1, field_in_h=False,
-                   subdiv="default", nl=1, hw=9.0, record_all=False)]
+                   subdiv="default", nl=1, hw=9.0, record_all=False),
+              # stationary field (derivative exactly 0), explicitly time dependent H and rates
+              dict(dims=[2], n=3, kind="stationary", start=0.5, dt=0.1, field_in_h=False,
+                   subdiv="default", nl=1, hw=9.0, record_all=True),
+              dict(dims=[2], n=2, kind="stationary-zero", start=-0.3, dt=0.1, field_in_h=False,
+                   subdiv=None, nl=1, hw=9.0, record_all=False)]
     for i, f in enumerate(forced):
         cases.append(("forced%d" % i, gen_case(rng, tier, **f)))
     for i in range(ngen - len(forced)):
@@ -554,7 +567,7 @@ def correspondence(res, tier, rng):
 
     for e in todo:
         case, name = e["case"], e["name"]
-        nontrivial = case["n"] >= 1 and case["kind"] != "autonomous"
+        nontrivial = case["n"] >= 1 and case["kind"] not in ("autonomous", "stationary", "stationary-zero")
         cj = case_to_json(case)
         for meth, real, err in (("mft", e["mft"], e["e1"]), ("cdwf", e["cd"], e["e2"])):
             op = e["ops"].get(meth)
@@ -685,7 +698,9 @@ def oracle_case(res, case, tag=""):
             d1 = np.max(np.abs(np.array(st[i]) - mft["states"][i]))
             ref = np.array(sc[i]) if case["record_all"] else np.array(sc[i])[-1:]
             d2 = np.max(np.abs(ref - cd["states"][i]))
-            suffix = (" time-dependent-dissipators" if nl else "") + (" default-arguments" if default else "")
+            suffix = (" time-dependent-dissipators" if nl else "") + \
+                (" default-arguments" if default else "") + \
+                (" stationary-field" if case["kind"].startswith("stationary") else "")
             if d1 > 1e-9:
                 res.fail("no-field-dependence:MeanFieldTempo" + suffix,
                          {"case": cj, "diff": d1, "how": "the Hamiltonians ignore the field, yet system "
@@ -734,6 +749,12 @@ def search(res, rng=None):
                               field_in_h=False, subdiv=None, nl=2, record_all=True))
     oracle_case(res, gen_case(rng, "quick", dims=[2], n=4, kind="full", start=0.5, dt=0.1,
                               field_in_h=False, subdiv="default", nl=1, hw=9.0, record_all=True))
+    # (c'') stationary field (field_eom = 0, and field_eom = c a from a0 = 0: derivative exactly 0):
+    #       the sub-systems must still follow the explicit time dependence of H(t), gamma(t), A(t)
+    for kind in ("stationary", "stationary-zero"):
+        for sub in ("default", None):
+            oracle_case(res, gen_case(rng, "quick", dims=[2], n=4, kind=kind, start=0.5, dt=0.1,
+                                      field_in_h=False, subdiv=sub, nl=1, hw=9.0, record_all=True))
     # (d) fresh inputs: linear-in-time and fully time dependent equations, start_time != 0,
     #     1-3 systems, both record_all settings, field-free Hamiltonians
     for i in range(10):
@@ -754,7 +775,7 @@ def run(tier, seed, replay):
     res.rule = (
         "mean-field problems: 1-3 systems of dimensions 2/3, random Hermitian time- and field-dependent "
         "Hamiltonians, field equation c0+c1 t+c2 t^2+c3 a+c4 a t+sum tr(W rho) (sub-families linear-t, "
-        "time-only, autonomous), start_time in {0, !=0}, dt in {0.1,0.05,0.2,0.125,0.07}, 0-6 steps, "
+        "time-only, autonomous, stationary f=0 / f=c*a from a0=0), start_time in {0, !=0}, dt in {0.1,0.05,0.2,0.125,0.07}, 0-6 steps, "
         "both record_all settings, propagators sampled (subdiv_limit=None), integrated (64) and with the "
         "methods' DEFAULT settings (nothing passed), Hamiltonians slow/fast (cos 9t) in t and linear / "
         "|a|^2 in the field, 0-2 time dependent Lindblad rates and operators per system (times handed "
